@@ -30,7 +30,7 @@ def fnv(data):
     return h
 
 
-EM = dict(x86_64=62, i386=3, aarch64=183, ppc64=21, s390x=22, arm=40, riscv64=243)
+EM = dict(x86_64=62, i386=3, aarch64=183, ppc64=21, s390x=22, arm=40, riscv64=243, alpha=0x9026)
 
 
 def write_elf(path, segs, ps=4096, machine="x86_64", elfclass=64, be=False, nuls=(), notes=b"",
@@ -755,7 +755,7 @@ def write_lkcd_hist(path, entries, ps=4096, compression=2, data_offset=65536, ma
     return offs
 
 
-def write_elf_salted(path, segs, ps=4096, machine="x86_64", truncate_to=None):
+def write_elf_salted(path, segs, ps=4096, machine="x86_64", truncate_to=None, skew=0):
     """ELF64-LE core with byte-granular PT_LOAD segments that may overlap in memory.
     segs: dicts(paddr=, filesz=, memsz=, voff=, salt=) in program-header order; the byte
     stored for physical address pa of a segment with salt s is salted content (salt 0 =
@@ -763,12 +763,13 @@ def write_elf_salted(path, segs, ps=4096, machine="x86_64", truncate_to=None):
     (file_offset, seg) in header order."""
     nph = len(segs)
     ehsz, phsz = 64, 56
-    off = (ehsz + nph * phsz + ps - 1) // ps * ps
+    # skew: the data of every segment starts that many bytes behind a page boundary of the file
+    off = (ehsz + nph * phsz + ps - 1) // ps * ps + skew
     ph = b""
     out = []
     for s in segs:
         va = (s["paddr"] + s.get("voff", 0)) & M64
-        ph += struct.pack("<IIQQQQQQ", 1, 7, off, va, s["paddr"], s["filesz"], s["memsz"], ps)
+        ph += struct.pack("<IIQQQQQQ", 1, 7, off, va, s["paddr"], s["filesz"], s["memsz"], ps if not skew else 1)
         out.append((off, s))
         off += (s["filesz"] + ps - 1) // ps * ps
     ident = b"\x7fELF" + bytes([2, 1, 1, 0]) + b"\0" * 8
